@@ -35,6 +35,8 @@ Record case := {
   c_lock_free : bool;      (* TryLock of executionConfigMu succeeded after the final wait *)
   c_timeouts : nat;        (* settles that ran into the watchdog *)
   c_crashed : bool;        (* the process running the scenario died on it *)
+  c_panics : nat;          (* requests that ended in a panic (recovered by the harness in the request's own goroutine):
+                              such a request has not returned anything to its caller *)
   c_reader_writes : nat    (* source scan (one case per run): statements on the lookup path (ExecutionConfig.ProposerConfig
                               of v1/v2, Service.ProposerConfig and what they call) that write to the shared configuration
                               or to package-level state; the model's lookups only read (MRead) *)
@@ -63,6 +65,8 @@ Definition agree (c : case) : bool :=
   let '(pred, lf, _) := predict false (c_url c) (c_init c) (c_cmds c) in
   (* no step of the model ends the process *)
   negb (c_crashed c)
+  (* nor makes a request panic *)
+  && (c_panics c =? 0)%nat
   (* lookups, auctions and registration rounds only read the configuration they are given *)
   && (c_reader_writes c =? 0)%nat
   && zip_all (fun (p : bool * result) (o : obs) =>
@@ -102,16 +106,24 @@ Definition gates_released (cmds : list cmd) : bool :=
           (combine (seq 0 (length (spawn_indices 0 cmds))) (spawn_indices 0 cmds)).
 
 Definition is_refresh (sp : spawn) : bool := match sp_kind sp with KRefresh => true | _ => false end.
-Definition is_reader (sp : spawn) : bool := match sp_kind sp with KLookup | KAuction => true | _ => false end.
+Definition is_reader (sp : spawn) : bool :=
+  match sp_kind sp with KLookup | KAuction | KLookupNA | KBid | KFwd | KUnblind => true | _ => false end.
 
 (* the answer the statement asks for when configuration [c] is the active one *)
 Definition expected_answer (k : kind) (c : cfgstate) (v : N) : result :=
   match c with
-  | None => match k with KAuction => RNoRelays | _ => RFee 0%N end          (* fallback values *)
+  | None => match k with
+            | KAuction | KBid => RNoRelays                      (* fallback values: no relay to ask *)
+            | KFwd | KUnblind => RNoRelays                      (* nobody to forward to / to unblind with *)
+            | _ => RFee 0%N
+            end
   | Some d =>
-      if memb N.eqb v (d_bad d) then RErr
+      if memb N.eqb v (d_bad d)
+      then match k with KFwd => RNoRelays | _ => RErr end      (* an error (a forwarded registration is skipped), never a panic *)
       else match k with
-           | KAuction => if d_relay d then RFee (d_id d) else RNoRelays
+           | KAuction | KBid => if d_relay d then RFee (d_id d) else RNoRelays
+           | KFwd => if d_relay d then RDone else RNoRelays
+           | KUnblind => RNoRelays                             (* the harness's relay does not unblind *)
            | _ => RFee (d_id d)
            end
   end.
@@ -157,6 +169,7 @@ Definition P_b (c : case) : bool :=
   let sps := spawn_indices 0 (c_cmds c) in
   (length sps =? length (c_obs c)) &&
   negb (c_crashed c) &&                                      (* a process that died returns nothing, ever *)
+  (c_panics c =? 0) &&                                       (* a request that panics does not return (whatever the gates) *)
   (negb (gates_released (c_cmds c)) ||
    (forallb o_fin (c_obs c)                                  (* every request returns *)
     && c_lock_free c                                         (* no lock left held, no writer wedged *)
@@ -168,18 +181,25 @@ Definition violations (cs : list case) : list N := failing_ids c_id P_b cs.
 (* what P_b = true means, at least *)
 Lemma P_b_sound (c : case) :
   P_b c = true -> gates_released (c_cmds c) = true ->
-  (forall o, In o (c_obs c) -> o_fin o = true) /\ c_lock_free c = true /\ c_crashed c = false.
+  (forall o, In o (c_obs c) -> o_fin o = true) /\ c_lock_free c = true /\ c_crashed c = false /\ c_panics c = 0.
 Proof.
   unfold P_b. intros H Hg. rewrite Hg in H. cbn [negb orb] in H.
-  apply andb_true_iff in H as [H H']. apply andb_true_iff in H as [_ Hc].
+  apply andb_true_iff in H as [H H']. apply andb_true_iff in H as [H Hp]. apply andb_true_iff in H as [_ Hc].
   apply andb_true_iff in H' as [H _]. apply andb_true_iff in H as [H1 H2].
-  split; [|split; [exact H2|]].
+  split; [|split; [exact H2|split]].
   - rewrite forallb_forall in H1. exact H1.
   - destruct (c_crashed c); [discriminate|reflexivity].
+  - apply Nat.eqb_eq. exact Hp.
 Qed.
 
 (* a scenario on which the process died violates the property whatever else was observed *)
 Lemma P_b_crashed (c : case) : c_crashed c = true -> P_b c = false.
 Proof.
   unfold P_b. intros H. rewrite H. cbn [negb]. rewrite andb_false_r. reflexivity.
+Qed.
+
+(* so does a scenario in which a request panicked *)
+Lemma P_b_panicked (c : case) : c_panics c <> 0 -> P_b c = false.
+Proof.
+  unfold P_b. intros H. apply Nat.eqb_neq in H. rewrite H. rewrite andb_false_r. reflexivity.
 Qed.
